@@ -85,7 +85,7 @@ PROPS["C16"] = {
     "rule": "exhaustive: every sequence of <= 3 (quick) / 4 (thorough) of nine operations on two keys (Put k1 v1, Put k1 v2, Put k2 v1, Get k1, Get k2, "
             "Has k1, Remove k1, ClearCache, GetBulkFromEpoch[k1,k2]), with no failure or exactly one failing persister call at every position, for LRU cap 1, "
             "SizeLRU cap 1, FIFOSharded cap 2; plus every sequence of exactly 4 (quick) / 5 (thorough) for LRU cap 1. random: 12-30 ops over 3-5 keys, 2-4 values "
-            "(a 520-byte value for SizeLRU so that the 1024-byte capacity evicts), capacities 1-3, every cacher kind of factory.NewCache, memorydb (90%) / LevelDB / "
+            "(a 520-byte value for SizeLRU so that the 1024-byte capacity evicts; the zero-length value in a quarter of the histories), capacities 1-3, every cacher kind of factory.NewCache, memorydb (90%) / LevelDB / "
             "serial LevelDB persisters built by factory.NewDB behind a stub failing Put/Get/Has/Remove on the per-operation oracle (a failure every 4..12 calls), "
             "aliases PutInEpoch/GetFromEpoch/SearchFirst/RemoveFromCurrentEpoch, cold reads. Non-trivial = hits a recorded situation (eviction, cache-miss-refill, "
             "failed-put(-over-cached-value), failed-remove, failed-get/has, overwrite, clear-cache, bulk-swallowed-read-error ...). "
